@@ -43,6 +43,7 @@ type c15World struct {
 	tok        int
 	ops        []string
 	bad        bool
+	rotations  int
 	armedOp    string // an append is due right after the reader's next system call of this kind on the path
 	armedN     int
 	streamOver bool // plain follow: the file was removed after its data was delivered; the stream must end
@@ -285,6 +286,17 @@ func init() {
 						f = nil
 					}
 					w.fileExists = false
+					if w.reopen && t.WBool(1, 3) {
+						// rotation by rename: the path goes away, the old file lives on under another name (nobody writes to it any more)
+						w.rotations++
+						if err := os.Rename(w.path, fmt.Sprintf("%s.%d", w.path, w.rotations)); err != nil {
+							panic(err)
+						}
+						w.opf("rename away (after %d delivered)", len(w.delivered))
+						fsnotify.SimNotify(w.path, fsnotify.Rename)
+						rc.Fired["rotated-by-rename"]++
+						break
+					}
 					s.RegisterRemove(w.path)
 					if err := os.Remove(w.path); err != nil {
 						panic(err)
